@@ -1662,3 +1662,92 @@ def _linspace(I, a, k):
     if num == 1:
         return SArr(np.dtype("float64"), (1,), lambda idx: st)
     return SArr(np.dtype("float64"), (num,), lambda idx: st + to_real(A.T(idx[0])) * (sp - st) / (num - 1))
+
+
+@model(np.sort)
+def _npsort(I, a, k):
+    """A-NP-SPEC sort (1-D): out = x o p for a bijection p of [0,n) with out non decreasing"""
+    if not _anysym(a, k):
+        return NotImplemented
+    x = a[0].arr if getattr(a[0], "_pyvc_series", False) else A.as_sarr(a[0])
+    if x.ndim != 1:
+        raise Unsupported("np.sort of an n-d symbolic array")
+    xs = x.snapshot()
+    nt = A.T(x.shape[0])
+    p = z3.Function(fresh_name("sortperm"), z3.IntSort(), z3.IntSort())
+    pinv = z3.Function(fresh_name("sortinv"), z3.IntSort(), z3.IntSort())
+    i, j, i2 = z3.Int(fresh_name("i")), z3.Int(fresh_name("j")), z3.Int(fresh_name("i"))
+    A.note_fact(z3.ForAll([i], z3.Implies(z3.And(i >= 0, i < nt), z3.And(p(i) >= 0, p(i) < nt, pinv(p(i)) == i)), patterns=[p(i)]),
+                z3.ForAll([j], z3.Implies(z3.And(j >= 0, j < nt), z3.And(pinv(j) >= 0, pinv(j) < nt, p(pinv(j)) == j)), patterns=[pinv(j)]),
+                z3.ForAll([i, i2], z3.Implies(z3.And(i >= 0, i < i2, i2 < nt), xs((p(i),)) <= xs((p(i2),))), patterns=[z3.MultiPattern(p(i), p(i2))]))
+    out = SArr(x.dtype, x.shape, lambda idx: xs((p(idx[0]),)))
+    out.sort_of = {"perm": p, "inv": pinv, "n": nt, "input": xs}
+    c = A.cur()
+    if c is not None:
+        if not hasattr(c, "sort_log"):
+            c.sort_log = []
+        c.sort_log.append({"perm": p, "inv": pinv, "n": nt, "key": lambda r, q: xs((q,)), "nk": 1, "kind": "sort"})
+    return out
+
+
+@model(np.argsort)
+def _argsort(I, a, k):
+    """A-NP-SPEC argsort (1-D): the permutation sorting x; with kind='stable' ties keep their original order (== lexsort with one key)"""
+    if not _anysym(a, k):
+        return NotImplemented
+    x = a[0].arr if getattr(a[0], "_pyvc_series", False) else A.as_sarr(a[0])
+    if x.ndim != 1 or k.get("axis", -1) not in (-1, 0):
+        raise Unsupported("np.argsort of an n-d symbolic array")
+    kind = k.get("kind", a[2] if len(a) > 2 else None)
+    if kind in ("stable", "mergesort"):
+        return _lexsort(I, [[x]], {})
+    xs = x.snapshot()
+    nt = A.T(x.shape[0])
+    p = z3.Function(fresh_name("argsort"), z3.IntSort(), z3.IntSort())
+    pinv = z3.Function(fresh_name("argsortinv"), z3.IntSort(), z3.IntSort())
+    i, j, i2 = z3.Int(fresh_name("i")), z3.Int(fresh_name("j")), z3.Int(fresh_name("i"))
+    A.note_fact(z3.ForAll([i], z3.Implies(z3.And(i >= 0, i < nt), z3.And(p(i) >= 0, p(i) < nt, pinv(p(i)) == i)), patterns=[p(i)]),
+                z3.ForAll([j], z3.Implies(z3.And(j >= 0, j < nt), z3.And(pinv(j) >= 0, pinv(j) < nt, p(pinv(j)) == j)), patterns=[pinv(j)]),
+                z3.ForAll([i, i2], z3.Implies(z3.And(i >= 0, i < i2, i2 < nt), xs((p(i),)) <= xs((p(i2),))), patterns=[z3.MultiPattern(p(i), p(i2))]))
+    out = SArr(np.dtype("int64"), (A.dim(nt),), lambda idx: p(idx[0]))
+    out.inverse = lambda q: pinv(q)
+    return out
+
+
+class SymGenerator:
+    """A-NP-SPEC numpy.random.Generator: only choice(arr, k, replace=False) is specified: k entries of arr at pairwise distinct positions
+    (which ones is unconstrained: the proof holds for every outcome of the draw); k > len(arr) raises ValueError as NumPy does"""
+    _pyvc_ok = True
+
+    def __init__(self):
+        self.draws = []
+
+    def choice(self, arr, size=None, replace=True, **kw):
+        from .interp import PyRaise
+        if replace is not False or size is None or kw:
+            raise Unsupported("Generator.choice other than choice(arr, k, replace=False)")
+        x = A.as_sarr(arr)
+        if x.ndim != 1:
+            raise Unsupported("Generator.choice on an n-d array")
+        xs = x.snapshot()
+        n = A.T(x.shape[0])
+        kk = term(size)
+        A.oblige("choice.sample_not_larger_than_population", kk <= n, "Cannot take a larger sample than population when replace is False")
+        sel = z3.Function(fresh_name("draw"), z3.IntSort(), z3.IntSort())
+        c, c2 = z3.Int(fresh_name("c")), z3.Int(fresh_name("c"))
+        A.note_fact(z3.ForAll([c], z3.Implies(z3.And(c >= 0, c < kk), z3.And(sel(c) >= 0, sel(c) < n)), patterns=[sel(c)]),
+                    z3.ForAll([c, c2], z3.Implies(z3.And(c >= 0, c < c2, c2 < kk), sel(c) != sel(c2)), patterns=[z3.MultiPattern(sel(c), sel(c2))]))
+        out = SArr(x.dtype, (A.dim(kk),), lambda idx: xs((sel(idx[0]),)))
+        self.draws.append({"population": xs, "n": n, "k": kk, "sel": sel, "out": out})
+        return out
+
+
+def default_rng_summary(it, a, k):
+    """contract installed by a harness for np.random.default_rng: every draw is an unconstrained choice (SymGenerator)"""
+    g = SymGenerator()
+    c = A.cur()
+    if c is not None:
+        if not hasattr(c, "rng_log"):
+            c.rng_log = []
+        c.rng_log.append(g)
+    return g
